@@ -1,7 +1,7 @@
 // C14 — graph and object-association views stay consistent with a reference model
 // VF-VARIANT: san
 // VF-RULE: E1 breadth-first search, de-duplicated on the canonical state (every private field of GlobalGraph / AssociationGraphImplObserver, addresses renamed, plus the reference), over all histories of public operations with every argument from a small universe, including absent ids/objects. A crash / sanitizer report / hang is a finding of the history that was running (recovered from a per-worker black box). A transition is non-trivial when it changed the canonical state.
-// VF-BOUND: GlobalGraph alone: <= 4 (quick) / 5 (thorough) node ids and <= 6 / 8 edge ids ever created, start directed and start undirected, state graph closed (histories of any length within the id budget). Observer (3 spaces per start mode): topology = 3 node + 2 edge objects + "no edge object", <= 4 node / 4 edge ids, all histories to depth 4 (quick) / 5 (thorough; plus 4 node objects, <= 5 ids, depth 4); association = 2+2 objects, <= 3 ids, associate/dissociate and object-less nodes/edges made on the subject graph, depth 6 / 7; index = 2+2 objects, indices 0..1 explicit + allocated, depth 5 / 6. Replaces "length <= 6 over <= 4 nodes exhaustively" (the graph layer is closed, the observer layer is cut at depth 4-7) and "random length 40 over 8 nodes" (not run: nothing is sampled).
+// VF-BOUND: GlobalGraph alone: <= 4 (quick) / 5 (thorough) node ids and <= 6 / 8 edge ids ever created, start directed and start undirected, state graph closed (histories of any length within the id budget). Observer (4 spaces per start mode): topology = 3 node + 2 edge objects + "no edge object", <= 4 node / 4 edge ids, all histories to depth 4 (quick) / 5 (thorough; plus 4 node objects, <= 5 ids, depth 4); association = 2+2 objects, <= 3 ids, associate/dissociate and object-less nodes/edges made on the subject graph (createNode, createNodeFromNode, createNodeOnEdge, deleteNode at graph level), depth 6 / 7, and 3+1 objects, <= 4 ids, depth 4 / 5; index = 2+2 objects, indices 0..1 explicit + allocated, depth 5 / 6. Replaces "length <= 6 over <= 4 nodes exhaustively" (the graph layer is closed, the observer layer is cut at depth 4-7) and "random length 40 over 8 nodes" (not run: nothing is sampled).
 // VF-LEVEL: bounded-exhaustive differential check of the real code against an independent reference multigraph + association maps: every reachable state within the bound is audited (cross-view invariants on private state, state = reference, every query and iterator = reference, must-raise operations raise bpp::Exception and leave every private field unchanged, copies own distinct objects with isomorphic relations)
 // VF-ASSUME: the reference model in harness/C14_model.hpp and C14.cpp is right;; sequential library, no hidden global state (checked by the determinism gate);; protected GlobalGraph::link/unlink/switchNodes/setRoot are reached only through public callers;; self-loops, orientate(), isTree/isDA, getLeavesFromNode, getAllInnerNodes, observer operator= and outputToDot are outside the check
 // VF-TECHNIQUE: explicit-state BFS over operation histories with a reference model (differential), real code under ASan/UBSan + libstdc++ assertions
